@@ -115,6 +115,7 @@ class BinaryAUROC(Metric[torch.Tensor]):
         if weight is None:
             weight = torch.ones_like(input, dtype=torch.double)
         _binary_auroc_update_input_check(input, target, self.num_tasks, weight)
+        input, target, weight = input.detach(), target.detach(), weight.detach()
         self.inputs.append(input)
         self.targets.append(target)
         self.weights.append(weight)
@@ -248,6 +249,7 @@ class MulticlassAUROC(Metric[torch.Tensor]):
         target = target.to(self.device)
 
         _multiclass_auroc_update_input_check(input, target, self.num_classes)
+        input, target = input.detach(), target.detach()
         self.inputs.append(input)
         self.targets.append(target)
         return self
